@@ -485,6 +485,15 @@ def _limit_child():
         resource.setrlimit(resource.RLIMIT_AS, (lim, lim))
     except (ValueError, OSError):
         pass
+    # the extracted OCaml model uses non-tail-recursive list functions: long clause lists need a deeper stack than 8 MiB
+    try:
+        soft, hard = resource.getrlimit(resource.RLIMIT_STACK)
+        want = 1 << 30
+        if hard != resource.RLIM_INFINITY:
+            want = min(want, hard)
+        resource.setrlimit(resource.RLIMIT_STACK, (want, hard))
+    except (ValueError, OSError):
+        pass
 
 
 def run_parallel(cmds, timeout):
